@@ -255,7 +255,8 @@ def jobs(tier):
             if flavor == 'flow' and q and KINDS[k] not in (
                     'add', 'delete', 'divide', 'move_out'):
                 continue
-            if KINDS[k] in ('generate_over', 'generate_into'):
+            if KINDS[k] in ('generate_over', 'generate_into',
+                            'regen_same_instant'):
                 continue        # in-place generation during a phase: C10
             out.append(dict(name='stepobs-%s-%s' % (flavor, KINDS[k]),
                             flavor=flavor, ops=[k], stepobs=True,
@@ -307,8 +308,31 @@ def body(ctx, cfg):
     else:
         extra_p['obs'] = obs
         extra_t['obs'] = wiring
+    def agent_states(proc, st):
+        # a process inside a compartment (possibly one generated over an
+        # existing compartment) is shown the current values of its own store
+        e = CTX.get('engine')
+        if e is None or CTX.get('stop_checks'):
+            return
+        ent = hist.live_objects(e.state).get(id(proc))
+        if ent is None:
+            return
+        cur = get(e.state.get_value(), ent[0][:-1] + ('s',), None)
+        want = {'x', 'y', 'm'} | ({'w'} if proc.parameters.get('wide')
+                                  else set())
+        ok = isinstance(cur, dict) and isinstance(st.get('s'), dict) and \
+            set(st['s']) == want
+        ctx.claim('C07.shape', ok, sig='shape-agent', info=lambda: dict(
+            path=ent[0], states=st, hierarchy=cur))
+        if ok:
+            ctx.claim('C07.values', AND([EQ(st['s'][k], cur[k])
+                                         for k in sorted(want)]),
+                      sig='values-agent', info=lambda: dict(
+                          path=ent[0], states=st, hierarchy=cur,
+                          issued=[i[:2] for i in CTX['issued']]))
     pre = dict(ctx=ctx, home=home, wiring=wiring, kinds=[KINDS[k] for k in
                                                          kinds],
+               agent_states_hook=agent_states,
                dtot=ctx.int('dtot', -3, 3), done=ctx.int('done', -3, 3))
     # hist.build clears CTX: install our entries through a tiny wrapper
     orig_clear = hist.CTX.clear
